@@ -13,6 +13,8 @@ from .shared import _mentions, await_map
 
 SUMMARY = "Atomic test-and-remove of the take, ownership of what finish() returns, enumeration of the events that make a held message deliverable again."
 DECIDED = [
+    "R-C14-SHUTDOWN: Worker.run hands held messages back (finish() of the consumers) only after finish_gracefully ended the executions holding them - order "
+    "consumers -> finish_gracefully -> finish() -> unregister on every normal path (C03's SHUTDOWN rules, reused)",
     "R-C14-TAKE: in-memory - no suspension point between removing a message from its place and adding it to the processing set; Redis - removal and held-mark are one "
     "MULTI/EXEC transaction AND the transaction's reply must be used to learn whether this consumer actually removed the name (the name was read in an earlier, separate command)",
     "R-C14-FINISH-OWN: finish() may return only what this consumer holds: the container it drains is created by this consumer, not state shared by all consumers of the queue",
@@ -33,6 +35,9 @@ def run(ctx: Ctx) -> None:
     terminal_callers_rule(ctx, "R-C14-REDELIVER", ops=("reject", "requeue"))
     race(ctx, "R-C14-REDELIVER")
     maintenance(ctx, "R-C14-REDELIVER")
+    from .C03 import shutdown
+
+    shutdown(ctx, "R-C14-SHUTDOWN")  # held messages are handed back (finish) only after the executions holding them have ended
 
 
 def redis_take_reply(ctx: Ctx, rule="R-C14-TAKE") -> None:
